@@ -3,7 +3,8 @@
    conv.P2ToV2.  The model follows the Go code statement by statement; it is written once over
    the Ops record: theorems at ROps (Sdf/BuildR.v), bit-exact replay at FOps (Sdf/C17Corr.v). *)
 From Coq Require Import ZArith List Bool.
-From Sdfx Require Import Num.Ops Geo.Vec.
+From Sdfx Require Import Num.Ops.
+From Sdfx Require Import Geo.Vec.
 Import OpsNotations ListNotations.
 Local Open Scope ops_scope.
 
